@@ -222,7 +222,8 @@ class TermCharset:
         """
         Redefine G'g' with new mapping.
         """
-        self._g[g] = charset
+        # a new list: copies of this object (save_cursor) keep their own designations
+        self._g = [*self._g[:g], charset, *self._g[g + 1 :]]
         self.activate(g=self.active)
 
     def activate(self, g: int) -> None:
